@@ -349,7 +349,14 @@ pub fn execute_stall(p: &Program, prefix: &[usize], horizon: usize, on_decision:
                 } else if let Some(r) = d.records.iter().find(|r| r.sector == 0) {
                     format!("key {} has no durable extent", crate::util::show(&r.key))
                 } else {
-                    String::new()
+                    // the file as it stands, read by the independent decoder: exactly the live keys (an accepted
+                    // delete whose generation is still on the device would come back after a restart)
+                    let on_device: Vec<Vec<u8>> = sut.path.as_ref().and_then(|p| std::fs::read(p).ok()).map(|img| crate::layoutref::decode(&img).live().keys().cloned().collect()).unwrap_or_default();
+                    let live: Vec<Vec<u8>> = d.records.iter().map(|r| r.key.clone()).collect();
+                    match on_device.iter().find(|k| !live.contains(k)) {
+                        Some(k) => format!("key {} is still on the device although its delete was accepted (it would be back after a restart)", crate::util::show(k)),
+                        None => String::new(),
+                    }
                 };
                 if reason.is_empty() {
                     break;
